@@ -129,6 +129,7 @@ def run(rep, tier):
         if k % 6 == 3:
             integer_error_probe(rep, r, c)
     thin_segments_probe(rep, r, 40 * scale)
+    isotropic_sources_probe(rep, r, 60 * scale)
     out = drv.run(lines)
     if out is None:
         rep.tie_broken('model driver failed', drv.error)
@@ -362,6 +363,48 @@ def thin_segments_probe(rep, r, n):
             eo = 0.5 * math.degrees(math.atan2(2 * float(b), float(a - cc)))
             if abs(((got[2] - eo) + 90.0) % 180.0 - 90.0) > 1e-6:
                 rep.violation(f'thin-source-orientation:{kind}', f'{kind} source: orientation {got[2]} deg, second moments give {eo}', rp)
+
+
+def isotropic_sources_probe(rep, r, n):
+    """(S) sources whose covariance is isotropic up to round-off (noise-free circular Gaussians, constant discs and squares centred on a
+    pixel): the eigenvalues are those of the symmetric covariance matrix the catalogue itself reports, and every shape column is finite
+    (seed C07-r13: a closed form trace/2 +- sqrt(trace^2/4 - det) whose radicand cancels to about -1e-15 -> NaN in about 1 source in 5)"""
+    from photutils.segmentation import SourceCatalog, SegmentationImage
+    for k in range(n):
+        ny, nx = 21, 23
+        yy, xx = np.mgrid[0:ny, 0:nx]
+        cx, cy = r.randint(8, 14), r.randint(8, 12)
+        rad = r.choice([2, 3, 3, 4, 5])
+        kind = ['gauss', 'disc', 'square'][k % 3]
+        sel = ((xx - cx) ** 2 + (yy - cy) ** 2 <= rad ** 2) if kind != 'square' else ((abs(xx - cx) <= rad) & (abs(yy - cy) <= rad))
+        if kind == 'gauss':
+            img = r.uniform(1, 200) * np.exp(-((xx - cx) ** 2 + (yy - cy) ** 2) / (2 * r.uniform(1.0, 3.0) ** 2))
+        else:
+            img = np.full((ny, nx), r.uniform(0.1, 50))
+        seg = sel.astype(int)
+        with warnings.catch_warnings():
+            warnings.simplefilter('ignore')
+            try:
+                cat = SourceCatalog(img, SegmentationImage(seg))
+                cov = np.asarray(cat.covariance[0], float)
+                ev = np.asarray(cat.covariance_eigvals[0], float)
+                cols = {c_: float(np.asarray(getattr(cat, c_))[0]) for c_ in ('semimajor_sigma', 'semiminor_sigma', 'fwhm', 'eccentricity', 'elongation',
+                                                                             'ellipticity', 'cxx', 'cyy', 'cxy', 'orientation')}
+            except Exception as e:                                  # noqa: BLE001
+                rep.violation(f'isotropic-source-raises:{type(e).__name__}', f'SourceCatalog shape columns raised {e!r} for an isotropic source', {'data': img.tolist(), 'segm': seg.tolist()})
+                continue
+        rep.case(('iso', img.tobytes(), seg.tobytes()), True, kind='isotropic-source:' + kind)
+        rep.probe_only += 1
+        rp = {'kind': kind, 'centre': [cx, cy], 'radius': rad, 'data': img.tolist(), 'segm': seg.tolist()}
+        want = np.sort(np.linalg.eigvalsh(cov))[::-1]
+        bad = [c_ for c_, v in cols.items() if not np.isfinite(v)]
+        if bad or not np.all(np.isfinite(ev)):
+            rep.violation('isotropic-source-nonfinite', f'{kind} source of radius {rad} centred on a pixel: covariance {cov.tolist()} is finite but covariance_eigvals = {ev.tolist()}, '
+                          f'non-finite columns {bad}', rp)
+        elif not np.allclose(ev, want, rtol=1e-9, atol=1e-12):
+            rep.violation('isotropic-source-eigvals', f'covariance_eigvals {ev.tolist()} but the eigenvalues of the reported covariance {cov.tolist()} are {want.tolist()}', rp)
+        elif not (abs(cols['semimajor_sigma'] - math.sqrt(want[0])) <= 1e-9 * math.sqrt(want[0]) and abs(cols['semiminor_sigma'] - math.sqrt(want[1])) <= 1e-9 * math.sqrt(want[1])):
+            rep.violation('isotropic-source-sigma', f'semimajor/semiminor sigma {cols["semimajor_sigma"]}, {cols["semiminor_sigma"]} are not the square roots of the eigenvalues {want.tolist()}', rp)
 
 
 def detection_catalog_probe(rep, r, c):
